@@ -68,6 +68,11 @@ pub struct Interp<'a> {
     pub xenv: bool,
 }
 
+thread_local! {
+    /// results of earlier steps of the current history (suite S-hist); `(h k)` refers to them
+    pub static HANDLES: std::cell::RefCell<Vec<B>> = std::cell::RefCell::new(vec![]);
+}
+
 fn usz(x: &Sx) -> Result<usize, String> {
     x.atom().ok_or("atom")?.parse::<usize>().map_err(|e| e.to_string())
 }
@@ -109,6 +114,10 @@ impl<'a> Interp<'a> {
                         } else {
                             Ok(build_tt(env, &vars, tt, 0, 0))
                         }
+                    }
+                    ("h", 1) => {
+                        let k = usz(&a[0])?;
+                        HANDLES.with(|h| h.borrow().get(k).cloned()).ok_or_else(|| "handle".to_string())
                     }
                     ("var", 1) => Ok(env.var(usz(&a[0])?)),
                     ("const", 1) => Ok(env.mk_const(a[0].atom() == Some("1"))),
